@@ -101,7 +101,17 @@ def main():
                 rows_ = []
                 for _ in range(rng.randrange(1, 4)):
                     q = rng.random()
-                    if q < 0.7:
+                    if q < 0.15:
+                        # the stream already shows the bet that REPLACES a known order's bet (same customer order reference, new bet id)
+                        # while the answer to the replace request is still outstanding: nothing may be created or duplicated for it
+                        nm, mid = rng.choice(onames)
+                        if nm in bets:
+                            if rng.random() < 0.6:
+                                steps.append(["replace", nm, rng.choice([210, 220, 190])])
+                            rows_.append({"ref": nm, "market": mid, "bet": "R" + bets[nm], "status": "EXECUTABLE", "matched": 0, "remaining": 300})
+                            if rng.random() < 0.5:
+                                rows_.append({"ref": nm, "market": mid, "bet": bets[nm], "status": "EXECUTION_COMPLETE", "matched": 0, "remaining": 0, "cancelled": 300})
+                    elif q < 0.7:
                         nm, mid = rng.choice(onames)
                         if nm in bets:
                             done = rng.random() < 0.4
